@@ -34,3 +34,19 @@ Example C04_nonvacuous :
   choice [1 # 4; 0; 3 # 4] (1 # 2) = 2%nat /\ choice [1 # 4; 0; 3 # 4] (7 # 8) = 0%nat /\
   draw_key [] 2 1 1 3 = [0; 2; 3]%nat.
 Proof. vm_compute. repeat split. Qed.
+
+(* ---- about the regenerated forward loop of lcm.simulate.simulate (Gen/Simulate.v) ---------------- *)
+From LCM Require Import Model.RandomChoice Gen.Simulate Proofs.C04_SimulateLoop.
+(* the draw keys handed to next_state in period t are those of the split tree (so that              *)
+(* C04_draw_keys_distinct speaks about the code), and they depend on the seed and the number of        *)
+(* stochastic variables only: not on params, states, choices or the solution                           *)
+Theorem C04_code_draw_keys_are_the_split_tree : forall (E : sim_env) t T, (t < T)%nat ->
+  sim_draw_keys E t = nth t (sim_keys (e_prng_key E (e_seed E)) (e_n_stochastic E) T) nil.
+Proof. exact bundled_draw_keys. Qed.
+Print Assumptions C04_code_draw_keys_are_the_split_tree.
+
+Theorem C04_code_draw_keys_depend_on_the_seed_only : forall (E E' : sim_env) t,
+  e_prng_key E (e_seed E) = e_prng_key E' (e_seed E') -> e_n_stochastic E = e_n_stochastic E' ->
+  sim_draw_keys E t = sim_draw_keys E' t.
+Proof. exact bundled_keys_depend_on_seed_only. Qed.
+Print Assumptions C04_code_draw_keys_depend_on_the_seed_only.
